@@ -376,13 +376,21 @@ def segsOracle (segs : List (V2 Rat × V2 Rat)) (exactData : Bool) (O D : V2 Rat
     let E := b.sub a; let ao := a.sub O
     if cross2 D E = 0 ∧ cross2 ao D = 0 ∧ (E.x = 0 ∨ E.y = 0) then
       let τ1 := ao.dot D / D.normSq; let τ2 := (b.sub O).dot D / D.normSq
-      if rmax τ1 τ2 < 0 then none else some (rmax (rmin τ1 τ2) 0)
+      -- computed vertices: the common part must have a clear length (more than the parameter resolution), a ray that
+      -- merely touches the end of the segment within rounding is a tie
+      let first := rmax (rmin τ1 τ2) 0
+      if rmax τ1 τ2 < 0 then none
+      else if !exactData && decide (rmax τ1 τ2 - first ≤ tolB * (scale / absV2 D + first)) then none
+      else some first
     else none
   match out with
   | .bad w => s!"fail {w}"
   | .miss =>
     if segs.any (fun (a, b) => match clear a b with | some s => ltMaxClear s max | none => false) then "fail none-but-ray-crosses-a-segment"
-    else if segs.any (fun (a, b) => match collinear a b with | some s => ltMaxClear s max | none => false) then "fail none-but-collinear-overlap"
+    -- (computed vertices: the overlap must start clearly before `max_toi`, by the parameter resolution `tolB` of the scene)
+    else if segs.any (fun (a, b) => match collinear a b with
+        | some s => ltMaxClear (if exactData then s else s + tolB * (scale / absV2 D + s)) max
+        | none => false) then "fail none-but-collinear-overlap"
     else if exact && segs.any (fun (a, b) => match closed a b with | some s => ltMaxClear s max | none => false)
     then "fail none-but-ray-meets-a-segment exactly-computed-tie"
     else "pass"
